@@ -133,23 +133,24 @@ type Engine struct {
 	// scalarLoopsOnce: loops ranging over a slice or array of strings/numbers are unrolled once whatever the loop bound
 	scalarLoopsOnce bool
 	// cloneFresh: bytes.Clone/slices.Clone yield a distinct value (for rules about aliasing rather than about values)
-	cloneFresh     bool
-	funcByName     map[string]*ssa.Function
-	out            []Summary
-	root           *ssa.Function
-	opaque         map[string]bool                           // canonical callee names never inlined
-	globalInit     map[string]*Term                          // initial values of package-level variables that are never reassigned after init (key: gaddr term key)
-	ifaceFlow      func(types.Type) (types.Type, types.Type) // devirt.go
-	fieldFunc      func(ssa.Value) *ssa.Function             // devirt.go
-	variadicUnused func(*ssa.Function) bool                  // devirt.go
-	fieldConst     func(*ssa.FieldAddr) *ssa.Const           // devirt.go
-	uniqueImpl     func(*types.Func) *ssa.Function           // the single production implementation of an interface method in the module, if any
-	maxRec         int                                       // how many recursive activations of one function may be inlined
-	stub           map[string][]*Term                        // callee -> fixed results (composition with an outcome class of the callee)
-	hofMethod      map[string]string                         // higher-order callee taking an interface value -> the method of it that is run
-	hof            map[string]int                            // opaque higher-order callee -> index of the function argument it runs (modelled as one synchronous call)
-	bind           map[string]*Term                          // term key -> replacement (composition presets)
-	stats          struct{ paths, pruned, loopcut int }
+	cloneFresh       bool
+	funcByName       map[string]*ssa.Function
+	out              []Summary
+	root             *ssa.Function
+	opaque           map[string]bool                           // canonical callee names never inlined
+	globalInit       map[string]*Term                          // initial values of package-level variables that are never reassigned after init (key: gaddr term key)
+	ifaceFlow        func(types.Type) (types.Type, types.Type) // devirt.go
+	fieldFunc        func(ssa.Value) *ssa.Function             // devirt.go
+	variadicUnused   func(*ssa.Function) bool                  // devirt.go
+	fieldConst       func(*ssa.FieldAddr) *ssa.Const           // devirt.go
+	fieldConstByName func(string, string) *ssa.Const           // devirt.go
+	uniqueImpl       func(*types.Func) *ssa.Function           // the single production implementation of an interface method in the module, if any
+	maxRec           int                                       // how many recursive activations of one function may be inlined
+	stub             map[string][]*Term                        // callee -> fixed results (composition with an outcome class of the callee)
+	hofMethod        map[string]string                         // higher-order callee taking an interface value -> the method of it that is run
+	hof              map[string]int                            // opaque higher-order callee -> index of the function argument it runs (modelled as one synchronous call)
+	bind             map[string]*Term                          // term key -> replacement (composition presets)
+	stats            struct{ paths, pruned, loopcut int }
 }
 
 func (e *Engine) inModule(fn *ssa.Function) bool {
@@ -1586,6 +1587,12 @@ func (e *Engine) fieldOf(whole *Term, name string, typ types.Type) *Term {
 	if whole.Kind == "zero" {
 		return zeroOf(typ)
 	}
+	// the zero value of a structure type written as a literal (T{}): go/ssa represents it as a nil constant of that type
+	if whole.Kind == "nil" && whole.Typ != nil {
+		if _, isStruct := whole.Typ.Underlying().(*types.Struct); isStruct {
+			return zeroOf(typ)
+		}
+	}
 	return e.rebind(mk("field", name, 0, typ, whole))
 }
 
@@ -1659,7 +1666,14 @@ func (e *Engine) eval(s *state, fr *frame, v ssa.Value) *Term {
 	case *ssa.Field:
 		base := e.val(s, fr, x.X)
 		st := x.X.Type().Underlying().(*types.Struct)
-		return e.fieldOf(base, st.Field(x.Field).Name(), x.Type())
+		fv := e.fieldOf(base, st.Field(x.Field).Name(), x.Type())
+		if fv != nil && fv.Kind == "field" && e.fieldConstByName != nil {
+			// a field of a structure passed by value whose only production value is one constant (devirt.go)
+			if c := e.fieldConstByName(typeStr(x.X.Type()), st.Field(x.Field).Name()); c != nil {
+				return e.val(s, fr, c)
+			}
+		}
+		return fv
 	case *ssa.IndexAddr:
 		base := e.val(s, fr, x.X)
 		idx := e.val(s, fr, x.Index)
@@ -2005,7 +2019,7 @@ func neverNil(t *Term) bool {
 	case "global":
 		// package-level error sentinels (Err*): assigned once at package init (rule IMMUT-GLOBALS)
 		i := strings.LastIndex(t.Name, ".")
-		return strings.HasPrefix(t.Name[i+1:], "Err") && isErrorType(t.Typ)
+		return sentinelName(t.Name[i+1:]) && isErrorType(t.Typ)
 	case "alloc", "closure", "func", "structval", "stubval", "maplit":
 		return true
 	}
@@ -2227,7 +2241,15 @@ func isSentinel(t *Term) bool {
 		return false
 	}
 	i := strings.LastIndex(t.Name, ".")
-	return strings.HasPrefix(t.Name[i+1:], "Err") && isErrorType(t.Typ)
+	return sentinelName(t.Name[i+1:]) && isErrorType(t.Typ)
+}
+
+// sentinelName: ErrX or errX — the naming convention of package-level error values (exported or not).
+func sentinelName(n string) bool {
+	if strings.HasPrefix(n, "Err") {
+		return true
+	}
+	return strings.HasPrefix(n, "err") && len(n) > 3 && n[3] >= 'A' && n[3] <= 'Z'
 }
 
 // identCompare decides == between error sentinels and stub values by identity: distinct sentinels are distinct
